@@ -16,7 +16,9 @@ ZSameMinute == {[init |-> H + 12, trans |-> <<[at |-> 7200, off |-> H]>>], [init
 \* gaps that swallow midnight and begin before it (23:30 -> 00:30, 23:00 -> 01:00), and a repeated midnight
 ZMidnight == {[init |-> -5 * H, trans |-> <<[at |-> 4 * H + 1800, off |-> -4 * H]>>], [init |-> -5 * H, trans |-> <<[at |-> 4 * H, off |-> -3 * H]>>],
               [init |-> -4 * H, trans |-> <<[at |-> 4 * H + 1800, off |-> -5 * H]>>]}
-QZones == ZMidnight \cup ZSameMinute \cup Z0 \cup {z \in Z1 : z.init # z.trans[1].off} \cup {z \in Z2 : z.init # z.trans[1].off /\ z.trans[1].off # z.trans[2].off}
+\* two fall-backs twenty minutes apart (+02:00 -> +01:30 -> +01:00): a wall-clock time that occurs THREE times - earlier is the first, later the LAST
+ZTriple == {[init |-> 2 * H, trans |-> <<[at |-> 0, off |-> H + 1800], [at |-> 1200, off |-> H]>>]}
+QZones == ZTriple \cup ZMidnight \cup ZSameMinute \cup Z0 \cup {z \in Z1 : z.init # z.trans[1].off} \cup {z \in Z2 : z.init # z.trans[1].off /\ z.trans[1].off # z.trans[2].off}
 Grid(lo, hi, step) == {lo + k * step : k \in 0..((hi - lo) \div step)}
 QWalls == Grid(-2 * 86400, 4 * 86400, 1800) \cup {-17762, 7199, 7200, 7201}
 QIWalls == {7200 + H + 5, 7200 - H - 15} \cup Grid(-20 * H, 20 * H, 3 * H) \cup Grid(2 * 86400 - 16 * H, 2 * 86400 + 16 * H, 4 * H) \cup {7199, 7200, -17762}
